@@ -101,6 +101,37 @@ func consistent(val map[string]int) bool {
 			}
 		}
 	}
+	// ord:U128(x)|U128(y) is the lexicographic order of (High, Low) when the word atoms are in the space
+	for a, u := range val {
+		if !strings.HasPrefix(a, "ord:U128(") {
+			continue
+		}
+		parts := strings.SplitN(strings.TrimPrefix(a, "ord:"), "|", 2)
+		if len(parts) != 2 || !strings.HasPrefix(parts[1], "U128(") || !strings.HasSuffix(parts[0], ")") || !strings.HasSuffix(parts[1], ")") {
+			continue
+		}
+		xa := strings.TrimSuffix(strings.TrimPrefix(parts[0], "U128("), ")")
+		xb := strings.TrimSuffix(strings.TrimPrefix(parts[1], "U128("), ")")
+		word := func(w string) (int, bool) {
+			k, flipped := orderAtom(xa+w, xb+w)
+			v, ok := val[k]
+			if ok && flipped {
+				v = 2 - v
+			}
+			return v, ok
+		}
+		hi, ok1 := word(".High")
+		lo, ok2 := word(".Low")
+		if ok1 && ok2 {
+			lex := hi
+			if hi == 1 {
+				lex = lo
+			}
+			if u != lex {
+				return false
+			}
+		}
+	}
 	eqConst := map[string]string{}
 	for a, v := range val {
 		if v != 1 || !strings.HasPrefix(a, "eq:") {
@@ -345,6 +376,12 @@ func classifyValue(info *types.Info, fd *ast.FuncDecl, e ast.Expr, depth int) st
 			}
 		}
 		return "var:" + id.Name
+	}
+	// a simple helper (`return <expr>`) is classified by what it returns
+	if call, ok := e.(*ast.CallExpr); ok && depth < 4 {
+		if hfi, ret := simpleHelper(info, call); hfi != nil {
+			return classifyValue(hfi.Pkg.TypesInfo, hfi.Decl, ret, depth+1)
+		}
 	}
 	// gRPC status errors: find the codes.X constant and the details reason
 	code, reason := "", ""
